@@ -109,14 +109,14 @@ def catalogue():
 
 ACTIONS_KNOWN = ["leave", "read", "read-mutate", "assign", "assign-after-read",
                  "retag", "read-retag", "retag-same", "read-twice"]
-ACTIONS_UNKNOWN = ["leave", "read", "read-twice"]
+ACTIONS_UNKNOWN = ["leave", "read", "read-twice", "reattach"]
 
 
 def actions_for(entry):
     if entry["kind"] == "unknown":
         return ACTIONS_UNKNOWN
     out = ["leave", "read", "assign", "assign-after-read", "retag-same",
-           "read-twice"]
+           "read-twice", "reattach"]
     if entry.get("mutate"):
         out.append("read-mutate")
     if entry.get("retag"):
@@ -257,7 +257,16 @@ def run_history(entry, where, history):
         want_type = cur_type
         want_bytes = cur_bytes
         try:
-            if entry["kind"] == "unknown":
+            if act == "reattach":
+                # an edit elsewhere in the IR (the module list) is no reason to
+                # touch a table nobody read: bytes must stay as loaded
+                m0 = ir.modules[0]
+                other_ir = g.IR(uuid=U(101))
+                other_ir.modules.append(m0)
+                ir.modules.append(m0)
+                m0.ir = None
+                m0.ir = ir
+            elif entry["kind"] == "unknown":
                 if act in ("read", "read-twice"):
                     d = aux.data
                     if act == "read-twice":
